@@ -205,6 +205,7 @@ class Engine:
         self.crates = crates if isinstance(crates, (list, tuple)) else [crates]
         self.max_paths = max_paths
         self.max_depth = max_depth
+        self.fn_text = {}
         self.adts = {}
         self.evals = {}
         self.by_path = {}
@@ -298,7 +299,9 @@ class Engine:
     # ---------- evaluation of operands / places ----------
     def const_term(self, c):
         if c.get("fn"):
-            return ("fn", c["fn"], tuple(c.get("fn_args", ())))
+            t = ("fn", c["fn"], tuple(c.get("fn_args", ())))
+            self.fn_text[t] = c.get("text") or c["fn"]
+            return t
         ty = c["ty"]
         if c.get("val") is not None:
             return I(int(c["val"]), ty)
@@ -499,7 +502,7 @@ class Frame:
             return self.heap[lv]
         # value-denoting lvalue (memory behind a parameter): simplify projections
         if k == "field":
-            b = self.read_lv(lv[1]) if lv[1] in self.heap or lv[1][0] in ("field", "deref", "downcast") else lv[1]
+            b = self.read_lv(lv[1]) if lv[1] in self.heap or lv[1][0] in ("field", "deref", "downcast", "val") else lv[1]
             return self.eng.project(b, lv[2], lv[3], lv[4] if len(lv) > 4 else None)
         if k == "deref":
             return lv
@@ -857,9 +860,11 @@ class Analysis:
         return
 
     # ---------- calls ----------
-    def _call(self, frame, t, path, bb):
+    def _call(self, frame, t, path, bb, override=None):
         f = t["func"]
         args = [frame.operand(a) for a in t["args"]]
+        if override is not None:
+            f, args = override
         if "indirect" in f:
             key = "<indirect>"
         else:
@@ -898,20 +903,34 @@ class Analysis:
             path.calls.append(ev)
             self._assign_dest(frame, t, r, path)
             return True
+        # calls through function values, iterator adaptors taking closures, std combinators on symbolic values
+        if override is None and getattr(self.policy, "higher_order", True):
+            r = self._higher_order(frame, t, ev, path, bb)
+            if r is not None:
+                return r
         # inline crate-local callee?
         target = self._local_body(f)
         if target is not None and frame.depth < self.eng.max_depth and self.policy.inline(f, target, frame.depth):
             self.eng.stats["inlined"] += 1
             sub = Analysis(self.eng, self.policy)
             outs = sub.run(target, args, frame.depth + 1, parent=frame)
+            return self._merge_outs(frame, t, path, outs, target["path"])
+        return self._opaque(frame, t, ev, path, key, args)
+
+    def _merge_outs(self, frame, t, path, outs, tpath, wrap=None, guard=None, as_iteration=None, pre_calls=(), ret_split=None):
+        """continue the caller along every outcome of an inlined body (callee, closure or desugared adaptor)"""
+        if True:
             res = []
             for o in outs:
                 p2 = path.clone()
+                if guard is not None:
+                    p2.guards.append(guard)
+                p2.calls.extend(pre_calls)
                 p2.guards += o.guards
                 for c in o.calls:
                     p2.calls.append(c)
                 p2.asserts += o.asserts
-                p2.loops += [("inl", target["path"], h) for h in o.loops]
+                p2.loops += [("inl", tpath, h) for h in o.loops]
                 f2 = frame.clone()
                 # the callee's environment stays addressable (its locals may occur in returned terms)
                 if getattr(o, "env", None) is not None:
@@ -923,13 +942,35 @@ class Analysis:
                 for lv, val in o.stores:
                     if lv[0] != "local":
                         f2.write_lv(lv, val, p2)
-                if o.end == "return":
-                    self._assign_dest(f2, t, o.ret, p2)
+                if o.end == "return" and ret_split is not None:
+                    # a short-circuiting adaptor (all / any): the closure's result decides between "next element" and "stop with a value"
+                    for g, action in ret_split(o.ret):
+                        f3, p3 = f2.clone(), p2.clone()
+                        if g is not None:
+                            if self._contradicts(p3, g):
+                                continue
+                            p3.guards.append(g + (t.get("line"),))
+                        if action == "iter":
+                            p3.end = "continue"
+                            p3.loop_header = as_iteration
+                            self._seal(p3, f3)
+                            res.append((None, p3))
+                        else:
+                            self._assign_dest(f3, t, action[1], p3)
+                            res.append((f3, p3))
+                elif o.end == "return" and as_iteration is not None:
+                    # the body of a desugared `for_each`: one iteration of a loop of the caller
+                    p2.end = "continue"
+                    p2.loop_header = as_iteration
+                    self._seal(p2, f2)
+                    res.append((None, p2))
+                elif o.end == "return":
+                    self._assign_dest(f2, t, wrap(o.ret) if wrap else o.ret, p2)
                     res.append((f2, p2))
                 elif o.end == "continue":
                     # one iteration of a loop inside the inlined callee: an iteration summary of the caller too
                     p2.end = "continue"
-                    p2.loop_header = ("inl", target["path"], o.loop_header)
+                    p2.loop_header = ("inl", tpath, o.loop_header)
                     self._seal(p2, f2)
                     res.append((None, p2))
                 else:
@@ -940,6 +981,271 @@ class Analysis:
             live = [(a, b) for a, b in res if a is not None]
             dead = [b for a, b in res if a is None]
             return ("forks", live, dead)
+
+    # ---------- function values, closures, adaptors ----------
+    FN_CALL = ("std::ops::Fn::call", "std::ops::FnMut::call_mut", "std::ops::FnOnce::call_once")
+
+    @staticmethod
+    def _value_of(frame, a):
+        v = a
+        n = 0
+        while isinstance(v, tuple) and v[0] == "ref" and n < 4:
+            v = frame.read_lv(v[2])
+            n += 1
+        return v
+
+    def _fn_callee(self, fnv):
+        """a callee record (like the extractor's) for a function item value"""
+        text = self.eng.fn_text.get(fnv, fnv[1])
+        f = {"def": fnv[1], "def_noargs": fnv[1], "args": list(fnv[2]), "text": text, "krate": None}
+        m = re.match(r"^<(.+) as ([^<>]+(?:<.*>)?)>::(\w+)$", text)
+        if m:
+            f["trait"] = re.sub(r"<.*$", "", m.group(2))
+            f["self_ty"] = m.group(1)
+        bs = self.eng.by_path.get(fnv[1])
+        if bs and len(bs) == 1 and not m:
+            f["resolved_local"] = True
+            f["resolved"] = fnv[1]
+        return f
+
+    def _closure_outs(self, frame, clo, args):
+        bs = self.eng.by_path.get(clo[1])
+        if not bs or frame.depth >= self.eng.max_depth:
+            return None, None
+        body = bs[0]
+        self_ty = body["locals"][1]["ty"] if len(body["locals"]) > 1 else ""
+        env_arg = ("ref", False, ("val", clo)) if self_ty.startswith("&") else clo
+        sub = Analysis(self.eng, self.policy)
+        return sub.run(body, [env_arg] + list(args), frame.depth + 1, parent=frame), body
+
+    def _apply(self, frame, t, path, bb, fv, args, **kw):
+        """call the function value fv (fn item or closure) on argument terms, continuing the caller"""
+        if isinstance(fv, tuple) and fv[0] == "closure":
+            outs, body = self._closure_outs(frame, fv, args)
+            if outs is None:
+                return None
+            return self._merge_outs(frame, t, path, outs, body["path"], **kw)
+        if isinstance(fv, tuple) and fv[0] == "fn" and not kw:
+            return self._call(frame, t, path, bb, override=(self._fn_callee(fv), list(args)))
+        return None
+
+    def _higher_order(self, frame, t, ev, path, bb):
+        f = ev.callee
+        if "indirect" in f:
+            return None
+        d = f.get("def") or ""
+        a = ev.args
+        if d in self.FN_CALL and len(a) == 2:
+            fv = self._value_of(frame, a[0])
+            tup = a[1]
+            if isinstance(tup, tuple) and tup[0] == "tuple" and isinstance(fv, tuple) and fv[0] in ("fn", "closure"):
+                return self._apply(frame, t, path, bb, fv, list(tup[1]))
+            return None
+        if d == "std::iter::Iterator::for_each" and len(a) == 2:
+            return self._for_each(frame, t, ev, path, bb)
+        if d in ("std::iter::Iterator::all", "std::iter::Iterator::any") and len(a) == 2:
+            return self._for_each(frame, t, ev, path, bb, short=d.split("::")[-1])
+        if getattr(self.policy, "fork_std", False):
+            return self._fork_std(frame, t, ev, path, bb)
+        return None
+
+    def _synth_event(self, path, key, fdict, args, bb, line):
+        e = CallEvent(fdict, key, list(args), bb, line)
+        e.idx = next(self.eng.ids)
+        e.inlined = "synthetic"
+        e.result = ("call", key, tuple(args), e.idx if self.policy.unique_calls else None)
+        return e
+
+    def _for_each(self, frame, t, ev, path, bb, short=None):
+        """`it.for_each(f)` is `for x in it { f(x) }`: same iteration summaries and exit path as the MIR loop.
+        `it.all(f)` is `for x in it { if !f(x) { return false } } true` (any: dually), `it` being taken by &mut."""
+        it, fv = ev.args[0], self._value_of(frame, ev.args[1])
+        if short:
+            it = self._value_of(frame, it) if isinstance(it, tuple) and it[0] == "ref" else it
+            if not (isinstance(fv, tuple) and fv[0] == "closure"):
+                return None
+        if not (isinstance(fv, tuple) and fv[0] in ("closure", "fn")):
+            return None
+        ity = ev.callee.get("self_ty") or (ev.callee.get("args") or ["?"])[0]
+        line = t.get("line")
+        k1 = "<%s as std::iter::IntoIterator>::into_iter" % ity
+        e1 = self._synth_event(path, k1, {"def": "std::iter::IntoIterator::into_iter", "text": k1, "trait": "std::iter::IntoIterator", "self_ty": ity, "args": [ity]}, [it], bb, line)
+        k2 = "<%s as std::iter::Iterator>::next" % ity
+        e2 = self._synth_event(path, k2, {"def": "std::iter::Iterator::next", "text": k2, "trait": "std::iter::Iterator", "self_ty": ity, "args": [ity]}, [("ref", True, ("val", e1.result))], bb, line)
+        res = e2.result
+        item = self.eng.project(("downcast", res, 1, "Some"), 0, "0", None)
+        header = ("foreach", e2.idx)
+        some = (("discr", res), ("==", 1), line)
+        none = (("discr", res), ("==", 0), line)
+        if fv[0] == "closure":
+            outs, body = self._closure_outs(frame, fv, [item])
+            if outs is None:
+                return None
+            split = None
+            if short:
+                stop = I(0 if short == "all" else 1, "bool")
+
+                def split(ret, stop=stop):
+                    if is_int(ret):
+                        return [(None, ("val", stop))] if bool(ret[1]) == bool(stop[1]) else [(None, "iter")]
+                    return [((ret, ("==", bool(stop[1]))), ("val", stop)), ((ret, ("==", not bool(stop[1]))), "iter")]
+            r = self._merge_outs(frame, t, path, outs, body["path"], guard=some, as_iteration=header, pre_calls=(e1, e2), ret_split=split)
+            if short:
+                dead = r[2]
+                stopped = r[1]
+            else:
+                dead = r[2] + [p2 for _, p2 in r[1]]
+                stopped = []
+            written = set()
+            for o in outs:
+                written.update(getattr(o, "foreign_writes", {}).keys())
+                written.update(lv for lv, _ in o.stores if lv[0] != "local")
+        else:
+            # a function item applied to each element: one opaque (or inlined) call per iteration
+            f2, p2 = frame.clone(), path.clone()
+            p2.guards.append(some)
+            p2.calls.extend((e1, e2))
+            r = self._call(f2, dict(t, t=t["t"]), p2, bb, override=(self._fn_callee(fv), [item]))
+            dead = []
+            if r is True:
+                p2.end = "continue"
+                p2.loop_header = header
+                self._seal(p2, f2)
+                dead = [p2]
+            elif isinstance(r, tuple):
+                for fx, px in r[1]:
+                    px.end = "continue"
+                    px.loop_header = header
+                    self._seal(px, fx)
+                    dead.append(px)
+                dead += r[2]
+            else:
+                dead = [p2]
+            written = set()
+        # the exit path: everything the body may have written is unknown afterwards
+        fe, pe = frame.clone(), path.clone()
+        pe.calls.extend((e1, e2))
+        pe.guards.append(none)
+        pe.loops.append(header)
+        for lv in written:
+            try:
+                old = fe.read_lv(lv)
+                fe.write_lv(lv, ("loopvar", header, lv, old), pe)
+            except Exception:
+                pass
+        self._assign_dest(fe, t, I(1 if short == "all" else 0, "bool") if short else ("unit",), pe)
+        return ("forks", [(fe, pe)] + (stopped if fv[0] == "closure" else []), dead)
+
+    OPT_RE = re.compile(r"^std::option::Option::<[^>]*>::(\w+)$")
+    RES_RE = re.compile(r"^std::result::Result::<.*>::(\w+)$")
+    BOOL_RE = re.compile(r"^(?:core|std)::bool::<impl bool>::(\w+)$")
+
+    def _fork_std(self, frame, t, ev, path, bb):
+        """Option / Result / bool combinators on symbolic values, presented as the `match` they abbreviate
+        (so `x.unwrap_or(d)` and `match x { Some(v) => v, None => d }` have one normal form)."""
+        d = ev.callee.get("def") or ""
+        a = ev.args
+        proj = self.eng.project
+        TRUE, FALSE = I(1, "bool"), I(0, "bool")
+        ok_ = lambda x: ("agg", "std::result::Result", 0, "Ok", (x,))
+        err_ = lambda x: ("agg", "std::result::Result", 1, "Err", (x,))
+        ident = None
+        alts = None
+        m = self.OPT_RE.match(d)
+        if m and a and not _is_opt(a[0]):
+            o = self._value_of(frame, a[0])
+            if _is_opt(o) or not isinstance(o, tuple):
+                return None
+            D = ("discr", o)
+            some, none = (D, ("==", 1)), (D, ("==", 0))
+            pay = proj(("downcast", o, 1, "Some"), 0, "0", None)
+            n = m.group(1)
+            alts = {
+                "unwrap_or": [(some, ("val", pay)), (none, ("val", a[1] if len(a) > 1 else None))],
+                "unwrap_or_else": [(some, ("val", pay)), (none, ("clo", a[1] if len(a) > 1 else None, [], ident))],
+                "map_or": [(some, ("clo", a[2] if len(a) > 2 else None, [pay], ident)), (none, ("val", a[1] if len(a) > 1 else None))],
+                "map_or_else": [(some, ("clo", a[2] if len(a) > 2 else None, [pay], ident)), (none, ("clo", a[1] if len(a) > 1 else None, [], ident))],
+                "map": [(some, ("clo", a[1] if len(a) > 1 else None, [pay], _some)), (none, ("val", NONE))],
+                "and_then": [(some, ("clo", a[1] if len(a) > 1 else None, [pay], ident)), (none, ("val", NONE))],
+                "ok_or": [(some, ("val", ok_(pay))), (none, ("val", err_(a[1]) if len(a) > 1 else None))],
+                "ok_or_else": [(some, ("val", ok_(pay))), (none, ("clo", a[1] if len(a) > 1 else None, [], err_))],
+                "is_some": [(some, ("val", TRUE)), (none, ("val", FALSE))],
+                "is_none": [(some, ("val", FALSE)), (none, ("val", TRUE))],
+                "copied": [(some, ("val", _some(("deref", pay)))), (none, ("val", NONE))],
+                "cloned": [(some, ("val", _some(("deref", pay)))), (none, ("val", NONE))],
+            }.get(n)
+        m = self.RES_RE.match(d) if alts is None else None
+        if m and a and not (isinstance(a[0], tuple) and a[0][0] == "agg"):
+            r = self._value_of(frame, a[0])
+            if not isinstance(r, tuple) or r[0] == "agg":
+                return None
+            D = ("discr", r)
+            isok, iserr = (D, ("==", 0)), (D, ("==", 1))
+            okp = proj(("downcast", r, 0, "Ok"), 0, "0", None)
+            erp = proj(("downcast", r, 1, "Err"), 0, "0", None)
+            n = m.group(1)
+            alts = {
+                "map": [(isok, ("clo", a[1] if len(a) > 1 else None, [okp], ok_)), (iserr, ("val", err_(erp)))],
+                "map_err": [(isok, ("val", ok_(okp))), (iserr, ("clo", a[1] if len(a) > 1 else None, [erp], err_))],
+                "and_then": [(isok, ("clo", a[1] if len(a) > 1 else None, [okp], ident)), (iserr, ("val", err_(erp)))],
+                "ok": [(isok, ("val", _some(okp))), (iserr, ("val", NONE))],
+                "is_ok": [(isok, ("val", TRUE)), (iserr, ("val", FALSE))],
+                "is_err": [(isok, ("val", FALSE)), (iserr, ("val", TRUE))],
+                "copied": [(isok, ("val", ok_(("deref", okp)))), (iserr, ("val", err_(erp)))],
+                "cloned": [(isok, ("val", ok_(("deref", okp)))), (iserr, ("val", err_(erp)))],
+                "unwrap_or": [(isok, ("val", okp)), (iserr, ("val", a[1] if len(a) > 1 else None))],
+            }.get(n)
+        m = self.BOOL_RE.match(d) if alts is None else None
+        if m and a and not is_int(a[0]):
+            cnd = a[0]
+            yes, no = (cnd, ("==", True)), (cnd, ("==", False))
+            n = m.group(1)
+            alts = {
+                "then_some": [(yes, ("val", _some(a[1]) if len(a) > 1 else None)), (no, ("val", NONE))],
+                "then": [(yes, ("clo", a[1] if len(a) > 1 else None, [], _some)), (no, ("val", NONE))],
+            }.get(n)
+        if not alts:
+            return None
+        line = t.get("line")
+        live, dead = [], []
+        for g, prod in alts:
+            if self._contradicts(path, g):
+                continue
+            g3 = g + (line,)
+            if prod[0] == "val":
+                if prod[1] is None:
+                    return None
+                f2, p2 = frame.clone(), path.clone()
+                p2.guards.append(g3)
+                self._assign_dest(f2, t, prod[1], p2)
+                live.append((f2, p2))
+                continue
+            fv = self._value_of(frame, prod[1]) if prod[1] is not None else None
+            if not (isinstance(fv, tuple) and fv[0] in ("closure", "fn")):
+                return None
+            if fv[0] == "closure":
+                r = self._apply(frame, t, path, bb, fv, prod[2], wrap=prod[3], guard=g3)
+                if r is None:
+                    return None
+                live += r[1]
+                dead += r[2]
+            else:
+                f2, p2 = frame.clone(), path.clone()
+                p2.guards.append(g3)
+                r = self._call(f2, t, p2, bb, override=(self._fn_callee(fv), list(prod[2])))
+                outs = [(f2, p2)] if r is True else (r[1] if isinstance(r, tuple) else [])
+                if r is None:
+                    dead.append(p2)
+                if isinstance(r, tuple):
+                    dead += r[2]
+                for fx, px in outs:
+                    if prod[3] is not None:
+                        lv = fx.lv_of(t["dest"]) if t["dest"]["proj"] else fx.loc(t["dest"]["l"])
+                        fx.write_lv(lv, prod[3](fx.read_lv(lv)), px)
+                    live.append((fx, px))
+        return ("forks", live, dead)
+
+    def _opaque(self, frame, t, ev, path, key, args):
         # opaque call
         ev.idx = next(self.eng.ids)
         path.calls.append(ev)
